@@ -167,6 +167,29 @@ CHECKS["C18"] = dict(
     note="String metadata keys and finite JSON values; independence demanded of sample storage only; exact half-way "
          "times are knife-edge; alphabets and depth as stated.")
 
+CHECKS["C11"] = dict(
+    engine="E1", section="4/C11",
+    text="BFS (depth 2-3) over histories of per-azimuth manual rejections, range updates, frequency-domain rejections "
+         "and maximum-value rejections on real HvsrAzimuthal objects (1-3 azimuths x 2-4 windows); in every reachable "
+         "state in which every azimuth has an accepted window and every accepted window has a peak, every accessor is "
+         "compared with math.fsum estimators using w = 1/(azimuths x accepted windows of the azimuth) and the "
+         "1 - sum(w^2) normalisation, and with the stated reductions: average of per-azimuth means, covariance "
+         "diagonal = std^2, single azimuth = HvsrTraditional, equal counts = pooled unweighted, azimuth-order "
+         "invariance, fresh object from the accepted windows.",
+    note="Per-window peaks from fresh HvsrCurve objects (C08); standard deviations judged only where 1 - sum(w^2) > 0; "
+         "states with an accepted peak-less window or an azimuth without accepted window are outside the quantifier "
+         "(expanded, not judged).")
+CHECKS["C12"] = dict(
+    engine="E1", section="4/C12",
+    text="The C05/C11 state graphs (plus one for HvsrDiffuseField) are explored from results of the real process() and "
+         "from crafted curve sets carrying such a result's meta; in every reachable state with >= 2 accepted windows "
+         "(per azimuth) and for both write-time distributions the object is written and read back: class, frequency "
+         "and curves bit-identical, both masks, search range, kwargs, per-window peaks, azimuth values and every "
+         "statistic accessor equal, the file's derived columns equal mean_curve/std_curve of the object written, and a "
+         "second write of the read-back object reproduces the numeric block.",
+    note="States in which the object itself cannot compute its mean/std curve (an azimuth whose accepted windows all "
+         "lack a peak) are not writable and are skipped and counted; np.loadtxt is trusted to parse %.18e exactly.")
+
 NOT_APPLICABLE = []
 
 PENDING = ["C01", "C02", "C03", "C04", "C05", "C06", "C07", "C09", "C10", "C11", "C12", "C13",
